@@ -46,6 +46,42 @@ def gen_nonzero(ctx, rule):
             evs[0]["at"] if evs else at, sample=det)
 
 
+def dealer_decode_rules(ctx, rule):
+    """the dealer decodes each secret chunk canonically, uses it only where valid, and reports an out-of-range chunk as an
+    error (shared: C06.R4, C07.R4)"""
+    root = "star_sharks::Sharks::dealer_rng"
+    eng, ret, st, fr = ctx.root(root)
+    at = ctx.fn(root).loc
+    # the decoded element is used (unwrapped, or converted into an Option and taken) only where its validity is established
+    un = [e for e in Q.calls(eng, None) if e.get("model") == "m_ct_unwrap" and e["home"] == fr.key]
+    okun = True
+    for e in un:
+        fs = Q.closure(eng, eng.facts_at(e["frame"], e["block"]))
+        if not any(t.op == "ct_valid" and rel == "eq" and v == 1 and t.args[0] is e["args"][0] for t, rel, v in fs):
+            okun = False
+    rp_ = Q.calls(eng, "star_sharks::share_ff::random_polynomial", in_fn=root)
+    okuse = bool(rp_)
+    for e in rp_:
+        el_ = e["argv"][0]
+        fs = Q.closure(eng, eng.facts_at(e["frame"], e["block"]))
+        if not (el_.op == "ct_value" and any(t.op == "ct_valid" and rel == "eq" and v == 1 and t.args[0] is el_.args[0] for t, rel, v in fs)):
+            okuse = False
+    ctx.add(rule, root + "#unwrap-after-validity", okun and okuse,
+            "the decoded secret element may be taken out of its CtOption only where `is valid` is established (unwraps checked: %d, "
+            "uses as constant term checked: %d)" % (len(un), len(rp_)), un[0]["at"] if un else at)
+    err = Q.variant(ret, 1)
+    okerr = False
+    for (fk, b) in (err[4] if err else ()):
+        f = Q.closure(eng, eng.facts_at(fk, b))
+        if any(t.op == "ct_valid" and rel == "eq" and v == 0 for t, rel, v in f):
+            okerr = True
+    ctx.add(rule, root + "#invalid-element-is-error", okerr, "an out-of-range secret element must produce Err (not a substituted value)", at)
+    rp = Q.calls(eng, "star_sharks::share_ff::random_polynomial", in_fn=root)
+    okel = len(rp) == 1 and rp[0]["argv"][0].op == "ct_value" and rp[0]["argv"][0].args[0].op == "fp_from_repr"
+    ctx.add(rule, root + "#constant-term-is-decoded-element", okel,
+            "the polynomial's constant term must be exactly the element decoded from the secret chunk; found %s" % (S(rp[0]["argv"][0], 4) if rp else None), at)
+
+
 def run(ctx):
     c02.poly_rules(ctx, "C06.R1")
 
@@ -114,37 +150,7 @@ def run(ctx):
     ctx.floor("C06.R3", 3)
 
     # ---- R4 out-of-range refusal --------------------------------------------------------------------------------
-    root = "star_sharks::Sharks::dealer_rng"
-    eng, ret, st, fr = ctx.root(root)
-    at = ctx.fn(root).loc
-    # the decoded element is used (unwrapped, or converted into an Option and taken) only where its validity is established
-    un = [e for e in Q.calls(eng, None) if e.get("model") == "m_ct_unwrap" and e["home"] == fr.key]
-    okun = True
-    for e in un:
-        fs = Q.closure(eng, eng.facts_at(e["frame"], e["block"]))
-        if not any(t.op == "ct_valid" and rel == "eq" and v == 1 and t.args[0] is e["args"][0] for t, rel, v in fs):
-            okun = False
-    rp_ = Q.calls(eng, "star_sharks::share_ff::random_polynomial", in_fn=root)
-    okuse = bool(rp_)
-    for e in rp_:
-        el_ = e["argv"][0]
-        fs = Q.closure(eng, eng.facts_at(e["frame"], e["block"]))
-        if not (el_.op == "ct_value" and any(t.op == "ct_valid" and rel == "eq" and v == 1 and t.args[0] is el_.args[0] for t, rel, v in fs)):
-            okuse = False
-    ctx.add("C06.R4", root + "#unwrap-after-validity", okun and okuse,
-            "the decoded secret element may be taken out of its CtOption only where `is valid` is established (unwraps checked: %d, "
-            "uses as constant term checked: %d)" % (len(un), len(rp_)), un[0]["at"] if un else at)
-    err = Q.variant(ret, 1)
-    okerr = False
-    for (fk, b) in (err[4] if err else ()):
-        f = Q.closure(eng, eng.facts_at(fk, b))
-        if any(t.op == "ct_valid" and rel == "eq" and v == 0 for t, rel, v in f):
-            okerr = True
-    ctx.add("C06.R4", root + "#invalid-element-is-error", okerr, "an out-of-range secret element must produce Err (not a substituted value)", at)
-    rp = Q.calls(eng, "star_sharks::share_ff::random_polynomial", in_fn=root)
-    okel = len(rp) == 1 and rp[0]["argv"][0].op == "ct_value" and rp[0]["argv"][0].args[0].op == "fp_from_repr"
-    ctx.add("C06.R4", root + "#constant-term-is-decoded-element", okel,
-            "the polynomial's constant term must be exactly the element decoded from the secret chunk; found %s" % (S(rp[0]["argv"][0], 4) if rp else None), at)
+    dealer_decode_rules(ctx, "C06.R4")
     ctx.floor("C06.R4", 3)
 
     # ---- R5 recovery guards -----------------------------------------------------------------------------------------
